@@ -157,6 +157,7 @@ func gen(t *rapid.T, big int) scen.Case {
 		// many recovery blocks spread over several volume files
 		c.NRec = rapid.IntRange(13, 300).Draw(t, "nrecbig")
 	}
+	c.DirName = rapid.SampledFrom(scen.DirNames).Draw(t, "dirname")
 	c.Index = rapid.SampledFrom([]string{"", "", "", "my set.par2", "arch[1].par2", "x.y.par2", "q?.par2", "set.PAR2.par2"}).Draw(t, "index")
 	c.GCreate = rapid.SampledFrom(gchoices).Draw(t, "gc")
 	c.GRepair = rapid.SampledFrom(gchoices).Draw(t, "gr")
